@@ -46,6 +46,11 @@ type IGSpec struct {
 	RefLo   uint64   // dep shapes: first block the referenced integration(s) index (their start)
 	Sources []SrcRef // which sources, with start/stop
 	Disable bool
+	// PreCols: required columns (ig_name, src_name, block_num, tx_idx, log_idx) that the
+	// user's table.columns ALREADY lists, with the type AddRequiredFields would give them and
+	// - like every ordinary configuration - without a block entry (a configuration written
+	// from the schema of an existing / shared table)
+	PreCols []string `json:",omitempty"`
 }
 
 type SrcRef struct {
@@ -182,6 +187,17 @@ func (ig *IGSpec) jsonConfig() map[string]any {
 	var srcs []map[string]any
 	for _, s := range ig.Sources {
 		srcs = append(srcs, map[string]any{"name": s.Name, "start": s.Start, "stop": s.Stop})
+	}
+	if len(ig.PreCols) > 0 {
+		pre := []jcol{}
+		for _, c := range ig.PreCols {
+			typ, ok := map[string]string{"ig_name": "text", "src_name": "text", "block_num": "numeric", "tx_idx": "int", "log_idx": "int"}[c]
+			if !ok {
+				panic("tasksim: PreCols: " + c)
+			}
+			pre = append(pre, jcol{c, typ})
+		}
+		cols = append(pre, cols...)
 	}
 	m := map[string]any{
 		"name":    ig.Name,
